@@ -278,7 +278,7 @@ func propPrintStmt(args []string) string {
 		}
 		return fmt.Sprintf("%q parses, but its printed form %q does not: %v", text, printed, err2)
 	}
-	if a, b := sexpStatement(stmt), sexpStatement(stmt2); a != b {
+	if a, b := strictly(func() string { return sexpStatement(stmt) }), strictly(func() string { return sexpStatement(stmt2) }); a != b {
 		if gated(knownPrintStmt(args)) {
 			return "skip"
 		}
